@@ -41,6 +41,8 @@ func (o c02Op) String() string {
 		return fmt.Sprintf("multi-delete %s %v quiet=%v", o.b, o.keys, o.quiet)
 	case "copy":
 		return fmt.Sprintf("copy %s/%s -> %s/%s", o.b, o.k, o.b2, o.k2)
+	case "copymeta":
+		return fmt.Sprintf("copy+meta %s/%s -> %s/%s", o.b, o.k, o.b2, o.k2)
 	}
 	return o.kind
 }
@@ -105,6 +107,12 @@ func c02BuildOps(u *c02Universe) []engine.Op {
 			}
 		}
 	}
+	if want("copy") && len(u.keys) > 1 {
+		// a copy that sends its own metadata: the destination takes it, the source keeps its own
+		for _, b := range u.buckets {
+			ops = append(ops, c02Op{kind: "copymeta", b: b, k: u.keys[0], b2: b, k2: u.keys[1]})
+		}
+	}
 	if want("multi") {
 		for _, b := range u.buckets {
 			sets := [][]string{u.keys, {u.keys[0], "missing"}}
@@ -167,7 +175,7 @@ func (s *c02Sys) cond(o c02Op) string {
 			return "overwrite"
 		}
 		return "new"
-	case "copy":
+	case "copy", "copymeta":
 		c := "other-key"
 		if o.b == o.b2 && o.k == o.k2 {
 			c = "self-copy"
@@ -268,9 +276,16 @@ func (s *c02Sys) Apply(op engine.Op) (string, *engine.Violation) {
 			}
 		}
 		return respSig(r), nil
-	case "copy":
-		r := s.w.Do(drv.Req{Method: "PUT", Path: "/" + o.b2 + "/" + o.k2, Header: drv.H("X-Amz-Copy-Source", "/"+o.b+"/"+o.k)})
+	case "copy", "copymeta":
+		hdr := drv.H("X-Amz-Copy-Source", "/"+o.b+"/"+o.k)
+		if o.kind == "copymeta" {
+			hdr = append(hdr, [2]string{c02MetaKey, "copy-value"}, [2]string{"x-amz-metadata-directive", "REPLACE"})
+		}
+		r := s.w.Do(drv.Req{Method: "PUT", Path: "/" + o.b2 + "/" + o.k2, Header: hdr})
 		e, src := s.m.Copy(o.b, o.k, o.b2, o.k2)
+		if o.kind == "copymeta" && e.Status == 200 {
+			s.m.Get(o.b2, o.k2).Meta[c02MetaKey] = "copy-value"
+		}
 		if !matchExp(r, e) {
 			return bad("status", r, e, "")
 		}
